@@ -786,6 +786,11 @@ class Frame:
             cur.items.extend(rhs.items if isinstance(rhs, PList) else list(rhs))
             return
         new = npmodel.binop(self.I, type(s.op), cur, rhs, s.lineno)
+        if isinstance(cur, SV) and cur.kind in ('ndarray', 'series', 'frame'):
+            # numpy / pandas objects implement the augmented assignments IN PLACE: every alias of the object (e.g. the caller's argument) sees the new values.
+            # The value domain has no aliasing of array objects, so the write is recorded (I.mutated, I.inplace) for the frame obligations of the contracts.
+            self.I.note_write(cur)
+            self.I.__dict__.setdefault('inplace', []).append((cur, s.lineno, self.qualname))
         self.assign(t, new)
 
     def x_Delete(self, s):
